@@ -102,6 +102,7 @@ type RunOut struct {
 	WallUs   int64          `json:"wall_us"`
 	Bubble   string         `json:"bubble,omitempty"`
 	StepCap  bool           `json:"step_cap,omitempty"`
+	Hist     []string       `json:"hist,omitempty"` // only with VERIF_HIST=1 (debugging)
 }
 
 // Job is a worker's assignment.
@@ -205,6 +206,11 @@ func RunOne(t *testing.T, c *Check, p *Plan, idx int) (*RunOut, *Result) {
 	o := &RunOut{Seed: p.Seed, Idx: idx, Family: p.Family, Verdict: vd, Incidental: inc, Canon: canonHash(r), Steps: r.Steps, Events: r.Events,
 		SimNs: r.SimNs, Faults: r.Faults, Probes: r.Probes, SitesHit: r.SitesHit, Switches: r.Switches, HistLen: len(r.Hist),
 		WallUs: time.Since(t0).Microseconds(), Bubble: r.BubbleErr, StepCap: r.StepCap}
+	if os.Getenv("VERIF_HIST") == "1" {
+		for _, rec := range r.Canon {
+			o.Hist = append(o.Hist, rec.String())
+		}
+	}
 	return o, r
 }
 
@@ -226,7 +232,9 @@ func WorkerMain(t *testing.T) {
 	if c == nil {
 		t.Fatalf("unknown property %q", job.Property)
 	}
-	debug.SetGCPercent(400)
+	// GC-triggered preemption reorders goroutines that are runnable in the same instant: no GC inside runs.
+	debug.SetGCPercent(-1)
+	debug.SetMemoryLimit(6 << 30)
 	emit := func(tag string, v any) {
 		b, _ := json.Marshal(v)
 		fmt.Printf("%s %s\n", tag, b)
@@ -242,7 +250,7 @@ func WorkerMain(t *testing.T) {
 			fmt.Printf("RUN %d\n", idx)
 			o, _ := RunOne(t, c, p, idx)
 			emit("END", o)
-			if n%64 == 63 {
+			if n%8 == 7 {
 				runtime.GC()
 			}
 		}
@@ -326,7 +334,7 @@ func shrinkJob(t *testing.T, c *Check, job *Job, emit func(string, any)) {
 	changed := true
 	for changed && execs < budget {
 		changed = false
-		for _, cand := range shrinkCandidates(best) {
+		for _, cand := range ShrinkCandidates(best) {
 			if try(cand) {
 				best = cand
 				changed = true
@@ -344,7 +352,7 @@ func shrinkJob(t *testing.T, c *Check, job *Job, emit func(string, any)) {
 }
 
 // shrinkCandidates proposes simpler plans (coarse first).
-func shrinkCandidates(p *Plan) []*Plan {
+func ShrinkCandidates(p *Plan) []*Plan {
 	var out []*Plan
 	add := func(f func(q *Plan) bool) {
 		q := clonePlan(p)
